@@ -24,6 +24,7 @@ CONSTANTS
   ChanTO = 600
   MaxLife = 3600
   Denied <- TSNone
+  Vetoable = {}
   Toks = {"none"}
   ResvTO = 30
   QuotaDenied = {}
